@@ -1,4 +1,3 @@
-use std::cmp::min;
 
 use lazy_static::lazy_static;
 
@@ -205,7 +204,12 @@ fn new_line_state(
     let (prefix_char, prefix, in_merge_conflict) = match diff_type.clone() {
         Unified => (new_line.chars().next(), None, None),
         Combined(Number(n_parents), in_merge_conflict) => {
-            let prefix = &new_line[..min(n_parents, new_line.len())];
+            // The prefix is the first n_parents characters (not bytes: the line may be malformed).
+            let prefix_end = new_line
+                .char_indices()
+                .nth(n_parents)
+                .map_or(new_line.len(), |(i, _)| i);
+            let prefix = &new_line[..prefix_end];
             let prefix_char = match prefix.chars().find(|c| c == &'-' || c == &'+') {
                 Some(c) => Some(c),
                 None => match prefix.chars().find(|c| c != &' ') {
